@@ -421,6 +421,54 @@ func (u *Universe) Query(r *rand.Rand, o RuleOpts) ast.Rule {
 	return ast.Rule{Head: ast.P("query"), Body: body, Exprs: exprs}
 }
 
+// Satisfiable biases queries towards content that exists: when non-empty, a query is
+// with probability 0.6 a generalisation of one of these facts (some terms turned into variables).
+func (u *Universe) QueryFrom(r *rand.Rand, o RuleOpts, known []ast.Pred) ast.Rule {
+	if len(known) == 0 || r.Intn(10) >= 6 {
+		return u.Query(r, o)
+	}
+	q := ast.Rule{Head: ast.P("query")}
+	n := 1 + r.Intn(2)
+	for i := 0; i < n; i++ {
+		f := Pick(r, known)
+		a := ast.Pred{Name: f.Name, Terms: make([]ast.Term, len(f.Terms))}
+		for j, t := range f.Terms {
+			if r.Intn(2) == 0 {
+				a.Terms[j] = ast.Var(fmt.Sprintf("g%d_%d", i, j))
+			} else {
+				a.Terms[j] = t
+			}
+		}
+		q.Body = append(q.Body, a)
+	}
+	return q
+}
+
+func (u *Universe) CheckFrom(r *rand.Rand, o RuleOpts, known []ast.Pred) ast.Check {
+	n := 1
+	if r.Intn(3) == 0 {
+		n = 2 + r.Intn(2)
+	}
+	c := ast.Check{}
+	for i := 0; i < n; i++ {
+		c.Queries = append(c.Queries, u.QueryFrom(r, o, known))
+	}
+	return c
+}
+
+func (u *Universe) PolicyFrom(r *rand.Rand, o RuleOpts, known []ast.Pred) ast.Policy {
+	p := ast.Policy{Allow: r.Intn(2) == 0}
+	n := 1 + r.Intn(2)
+	for i := 0; i < n; i++ {
+		if r.Intn(8) == 0 {
+			p.Queries = append(p.Queries, ast.Rule{Head: ast.P("query")})
+			continue
+		}
+		p.Queries = append(p.Queries, u.QueryFrom(r, o, known))
+	}
+	return p
+}
+
 func (u *Universe) Check(r *rand.Rand, o RuleOpts) ast.Check {
 	n := 1
 	if r.Intn(3) == 0 {
@@ -522,10 +570,62 @@ func NewScenario(r *rand.Rand, maxBlocks int, o BlockOpts) *Scenario {
 	u := NewUniverse(r)
 	s := &Scenario{U: u}
 	nb := 1 + r.Intn(maxBlocks)
+	known := []ast.Pred{}
 	for i := 0; i < nb; i++ {
-		s.Blocks = append(s.Blocks, u.Block(r, o))
+		b := u.Block(r, o)
+		if i == 0 {
+			known = append(known, b.Facts...)
+		}
+		s.Blocks = append(s.Blocks, b)
 	}
 	s.Auth = u.Auth(r, o, 3)
+	known = append(known, s.Auth.Facts...)
+	// re-draw checks and policies so that a good share of them is satisfiable
+	for i := range s.Blocks {
+		k := known
+		if i > 0 {
+			k = append(append([]ast.Pred{}, known...), s.Blocks[i].Facts...)
+		}
+		for j := range s.Blocks[i].Checks {
+			s.Blocks[i].Checks[j] = u.CheckFrom(r, o.Rule, k)
+		}
+	}
+	for j := range s.Auth.Checks {
+		s.Auth.Checks[j] = u.CheckFrom(r, o.Rule, known)
+	}
+	for j := range s.Auth.Policies {
+		s.Auth.Policies[j] = u.PolicyFrom(r, o.Rule, known)
+	}
 	s.Probes = u.Probes()
 	return s
+}
+
+// Texts renders blocks as canonical text lines (for evidence samples and witnesses).
+func Texts(blocks []ast.Block) [][]string {
+	out := [][]string{}
+	for _, b := range blocks {
+		l := []string{}
+		for _, f := range b.Facts {
+			l = append(l, f.Key())
+		}
+		for _, r := range b.Rules {
+			l = append(l, r.Key())
+		}
+		for _, c := range b.Checks {
+			l = append(l, c.Key())
+		}
+		if b.Context != "" {
+			l = append(l, "context="+b.Context)
+		}
+		out = append(out, l)
+	}
+	return out
+}
+
+func AuthTexts(a ast.AuthContent) []string {
+	l := Texts([]ast.Block{{Facts: a.Facts, Rules: a.Rules, Checks: a.Checks}})[0]
+	for _, p := range a.Policies {
+		l = append(l, p.Key())
+	}
+	return l
 }
